@@ -245,7 +245,22 @@ def run_duo12(case):
                            key_pred=lambda k: k.startswith("session:posterior") or k.startswith("session:evidence") or k.startswith("session:trim"))
 
 
-KINDS = {"duo": run_duo12, "session": run_session12, "resume_larger": run_resume_larger, "pipe": run_pipe, "pipe1": run_pipe1, "threshold": run_threshold}
+def run_cross12(case):
+    """A checkpoint written under options A resumed by a fresh sampler with options B and a larger n_total: run() post-conditions and the
+    posterior()/evidence() contract on the resumed sampler."""
+    from mc import session
+
+    def post(p):
+        out = list(terminal_errors(p))
+        before = len(p.viol)
+        session.accessor_oracle(session._Shim(p), "run(resume_state_path=...)")
+        out += [(k, m) for k, m, _ in p.viol[before:]]
+        return out
+
+    return session.run_cross_resume(case, lambda: [], post=post)
+
+
+KINDS = {"cross": run_cross12, "duo": run_duo12, "session": run_session12, "resume_larger": run_resume_larger, "pipe": run_pipe, "pipe1": run_pipe1, "threshold": run_threshold}
 
 FACTORS = [
     ("sample", ["tpcn", "rwm"]),
@@ -288,6 +303,8 @@ def plan(ctx):
     duo = [{"kind": "duo", "cfg": dict(scfg, **a), "cfg_b": b, "base": ctx.seed, "depth": 4 if th else 3, "shard": [sh, 2]}
            for a, b in (({}, {}), ({"resample": "syst"}, {"eval": "scalar", "vv": 0.5}), ({"d": 2, "clustering": True}, {"d": 2, "clustering": True, "target": "bimodal"})) for sh in range(2)]
     ctx.explore("two-samplers-interleaved", duo)
+    from mc import session as _s2
+    ctx.explore("resume-with-other-options", [{"kind": "cross", "cfg": dict(n_particles=16, d=2, n_total=48, eval="scalar", clustering=False), "pair": list(pr), "base": ctx.seed + b} for pr in _s2.CROSS for b in ((0, 5) if th else (0,))])
     agg = ctx.explore("terminal-states", cases)
     if agg.extra.get("run_cap_hit"):
         ctx.cap(f"per-configuration run cap hit in {agg.extra['run_cap_hit']} configurations (0-deviation run and the earliest 1-deviation runs complete)")
